@@ -13,7 +13,7 @@
    flag and item list; where [sep <> []] is needed it is stated. *)
 From Coq Require Import List Bool.
 Import ListNotations.
-Require Import Aiuti.Parse Aiuti.ParseInv Aiuti.ParseSrc Aiuti.Case_C19 Aiuti.ParseMon.
+Require Import Aiuti.Parse Aiuti.ParseInv Aiuti.ParseSrc Aiuti.Case_C19 Aiuti.ParseMon Aiuti.ParseSound.
 Require AiutiGen.T_ParseDefaults.
 
 (* -- the source has the syntactic shape the model was written for ------------
@@ -153,6 +153,67 @@ Theorem monitor_accepts_model :
 Proof. exact monitor_accepts_model_lemma. Qed.
 Print Assumptions monitor_accepts_model.
 
+(* -- the monitor decides the property on the OBSERVATION alone --------------------
+   (no model involved).  [observed_ok t sep pk custom items ores olog trip]
+   (ParseSound.v) is a relational statement about one observed run: the input,
+   the oracle table t (what the parser in force returned / that it raised, on
+   every string that can reach it), the returned dict or error [ores], the
+   custom parser's call log [olog] and the tripwire count [trip]:
+     * trip = 0: no name lookup, call or attribute access was evaluated;
+     * [KV it k v]: a string item stands for (k, v) with s = k ++ sep ++ v cut at
+       the FIRST occurrence of the non-empty separator (no decomposition has a
+       shorter key part); a pair item for its two components;
+     * [Lit x y]: a string becomes what the table says the parser returned, is
+       kept when the parser raised; a non-string is untouched;
+       [ParsedPair it (k', v')]: v' = Lit of the value, k' = Lit of the key iff
+       parse_keys, else the key itself;
+     * (a) if some item is a string without the separator ([NoSep]) or has an
+       unhashable parsed key, the FIRST such item decides: ores = ErrNotKV
+       <its index> (the ValueError naming that item) / ErrUnhashable, and all
+       items before it are fine;
+       (b) otherwise ores = Ok d where d is built by inserting the parsed pairs
+       in order ([Built]/[Insert]: a key equal to an existing one keeps the
+       first key object and its position and replaces the value, otherwise the
+       pair is appended);
+     * custom parser: it was called exactly on the string keys (iff parse_keys)
+       and string values of the items, in order, up to and including the first
+       failing item when that one could be split ([CallsOf]).
+   [monitor_sound]: if the monitor accepts an implementation trace, the trace
+   satisfies this statement; [monitor_sound_converse]: it rejects nothing that
+   satisfies it. *)
+Theorem monitor_sound :
+  forall sep pk custom t items ores olog trip,
+    ok (Case sep pk custom t items ores olog trip) = true ->
+    observed_ok t sep pk custom items ores olog trip.
+Proof. intros. now apply ok_sound. Qed.
+Print Assumptions monitor_sound.
+
+Theorem monitor_sound_converse :
+  forall sep pk custom t items ores olog trip,
+    observed_ok t sep pk custom items ores olog trip ->
+    ok (Case sep pk custom t items ores olog trip) = true.
+Proof. intros. now apply ok_complete. Qed.
+Print Assumptions monitor_sound_converse.
+
+(* the relations of that statement are what the model computes: the parsed pair
+   of an item, "not like KEY<sep>VALUE", and the insertion-built dictionary (so
+   dict_last_value_wins / dict_first_key_kept speak about [Built] too) *)
+Theorem statement_relations_are_the_model :
+  forall t sep pk,
+    (forall it kv, ParsedPair t sep pk it kv <-> parse_pair (lookup t) sep pk it = Some kv) /\
+    (forall it, NoSep sep it <-> parse_pair (lookup t) sep pk it = None) /\
+    (forall ps d, Built ps [] d <-> d = dict_of ps []).
+Proof.
+  intros t sep pk. repeat split.
+  - intros H. rewrite <- ref_pair_eq. now apply parsed_spec.
+  - intros H. apply (parsed_spec t sep pk). now rewrite ref_pair_eq.
+  - intros H. rewrite <- ref_pair_eq. now apply nosep_ref_pair.
+  - intros H. apply (nosep_ref_pair t sep pk). now rewrite ref_pair_eq.
+  - apply built_spec.
+  - apply built_spec.
+Qed.
+Print Assumptions statement_relations_are_the_model.
+
 (* ---- non-vacuity ------------------------------------------------------------ *)
 (* codes: a=97 b=98 c=99 '='=61 '1'=49 '2'=50 '.'=46 '0'=48 *)
 Definition ex_table : table :=
@@ -188,3 +249,29 @@ Example monitor_rejects :
   ok (Case [61] true false t [IStr [97; 61; 98; 61; 99]] (Ok [(OStr [97], OStr [98; 61; 99])]) [] 1) = false /\
   ok (Case [61] false false t [IStr [49; 61; 50]] (Ok [(OVal 0 0 true, OVal 2 1 true)]) [] 0) = false.
 Proof. vm_compute. repeat split. Qed.
+
+(* the readable statement itself on concrete observations (via the two monitor
+   theorems): 'a=b=c' cut at the first '=' satisfies it; cut at the last, a
+   tripwire hit, or a wrong error index do not *)
+Example observed_ok_example :
+  let t := ex_table in
+  observed_ok t [61] true false [IStr [97; 61; 98; 61; 99]] (Ok [(OStr [97], OStr [98; 61; 99])]) [] 0 /\
+  ~ observed_ok t [61] true false [IStr [97; 61; 98; 61; 99]] (Ok [(OStr [97; 61; 98], OStr [99])]) [] 0 /\
+  ~ observed_ok t [61] true false [IStr [97; 61; 98; 61; 99]] (Ok [(OStr [97], OStr [98; 61; 99])]) [] 1 /\
+  observed_ok t [61] true false [IStr [49; 61; 50]; IStr [97]; IStr [98]] (ErrNotKV 1) [] 0 /\
+  ~ observed_ok t [61] true false [IStr [49; 61; 50]; IStr [97]; IStr [98]] (ErrNotKV 2) [] 0.
+Proof.
+  cbv zeta. split; [|split; [|split; [|split]]].
+  - apply monitor_sound. reflexivity.
+  - intros H. apply monitor_sound_converse in H. discriminate.
+  - intros H. apply monitor_sound_converse in H. discriminate.
+  - apply monitor_sound. reflexivity.
+  - intros H. apply monitor_sound_converse in H. discriminate.
+Qed.
+
+(* the insertion relation on a concrete list: 1 and 1.0 are equal keys — the first
+   key object stays, the last value wins *)
+Example built_example :
+  Built [(OVal 0 0 true, OStr [97]); (OStr [97], OStr [98]); (OVal 1 0 true, OStr [99])] []
+        [(OVal 0 0 true, OStr [99]); (OStr [97], OStr [98])].
+Proof. apply built_spec. reflexivity. Qed.
